@@ -26,162 +26,163 @@ var commonAssumptions = []string{
 }
 
 var registry = map[string]*PropDef{
-	"SMOKE": {Harnesses: []HarnessDef{{Pkg: "cmd", Func: "VP_Smoke", Share: 1}}, QuickBudget: time.Minute, ThoroughBudget: time.Minute},
+	"SMOKE": {Harnesses: []HarnessDef{{Pkg: "cmd", Func: "VP_Smoke", Share: 1.00}}, QuickBudget: time.Minute, ThoroughBudget: time.Minute},
 	"C01": {
 		Harnesses: []HarnessDef{
-			{Pkg: "internal/object", Func: "VP_C01_RoundTrip", Quick: map[string]int{"payload": 6, "shortReads": 1}, Thorough: map[string]int{"payload": 16, "shortReads": 1}, Share: 0.25},
-			{Pkg: "internal/object", Func: "VP_C01_Header", Quick: map[string]int{"sizedigits": 5, "rest": 2}, Thorough: map[string]int{"sizedigits": 7, "rest": 3}, Share: 0.25},
-			{Pkg: "internal/object", Func: "VP_C01_Idempotent", Quick: map[string]int{"payload": 3}, Thorough: map[string]int{"payload": 5}, Share: 0.25},
-			{Pkg: "cmd", Func: "VP_C01_Cli", Quick: map[string]int{"payload": 3}, Thorough: map[string]int{"payload": 6}, Share: 0.25},
+			{Pkg: "internal/object", Func: "VP_C01_RoundTrip", Quick: map[string]int{"payload": 6, "shortReads": 1}, Thorough: map[string]int{"payload": 16, "shortReads": 1}, Share: 1.00},
+			{Pkg: "internal/object", Func: "VP_C01_Header", Quick: map[string]int{"sizedigits": 5, "rest": 2}, Thorough: map[string]int{"sizedigits": 7, "rest": 3}, Share: 1.00},
+			{Pkg: "internal/object", Func: "VP_C01_Idempotent", Quick: map[string]int{"payload": 3}, Thorough: map[string]int{"payload": 5}, Share: 1.00},
+			{Pkg: "cmd", Func: "VP_C01_Cli", Quick: map[string]int{"payload": 3}, Thorough: map[string]int{"payload": 6}, Share: 1.00},
 		},
-		QuickBudget: 8 * time.Minute, ThoroughBudget: 60 * time.Minute, Assumptions: commonAssumptions,
+		QuickBudget: 10 * time.Minute, ThoroughBudget: 45 * time.Minute, Assumptions: commonAssumptions,
 	},
 	"C02": {
 		Harnesses: []HarnessDef{
-			{Pkg: "cmd", Func: "VP_C02_WriteTree", Quick: map[string]int{"entries": 3, "depth": 2, "complen": 1, "symhash": 0}, Thorough: map[string]int{"entries": 3, "depth": 2, "complen": 2, "symhash": 0}, Share: 0.30},
-			{Pkg: "cmd", Func: "VP_C02_WriteTree", Quick: map[string]int{"entries": 2, "depth": 2, "complen": 2, "symhash": 0}, Thorough: map[string]int{"entries": 2, "depth": 3, "complen": 2, "symhash": 1}, Share: 0.20},
-			{Pkg: "cmd", Func: "VP_C02_Commit", Quick: map[string]int{"files": 2, "depth": 2, "complen": 1, "msglen": 1, "content": 1}, Thorough: map[string]int{"files": 2, "depth": 2, "complen": 2, "msglen": 2, "content": 1}, Share: 0.50},
+			{Pkg: "cmd", Func: "VP_C02_WriteTree", Quick: map[string]int{"entries": 3, "depth": 2, "complen": 1, "symhash": 0}, Thorough: map[string]int{"entries": 3, "depth": 2, "complen": 2, "symhash": 0}, Share: 1.00},
+			{Pkg: "cmd", Func: "VP_C02_WriteTree", Quick: map[string]int{"entries": 2, "depth": 2, "complen": 2, "symhash": 0}, Thorough: map[string]int{"entries": 2, "depth": 3, "complen": 2, "symhash": 1}, Share: 1.00},
+			{Pkg: "cmd", Func: "VP_C02_Commit", Quick: map[string]int{"files": 2, "depth": 2, "complen": 1, "msglen": 1, "content": 1}, Thorough: map[string]int{"files": 2, "depth": 2, "complen": 2, "msglen": 2, "content": 1}, Share: 1.00},
 		},
-		QuickBudget: 8 * time.Minute, ThoroughBudget: 60 * time.Minute, Assumptions: commonAssumptions,
+		QuickBudget: 10 * time.Minute, ThoroughBudget: 45 * time.Minute, Assumptions: commonAssumptions,
 	},
 	"C03": {
 		Harnesses: []HarnessDef{
 			{Pkg: "cmd", Func: "VP_C03_Step", Quick: map[string]int{"prefixes": 4}, Thorough: map[string]int{"prefixes": 4}, Share: 1.00},
 		},
-		QuickBudget: 8 * time.Minute, ThoroughBudget: 60 * time.Minute, Assumptions: commonAssumptions,
+		QuickBudget: 10 * time.Minute, ThoroughBudget: 45 * time.Minute, Assumptions: commonAssumptions,
 	},
 	"C04": {
 		Harnesses: []HarnessDef{
-			{Pkg: "cmd", Func: "VP_C04_Add", Quick: map[string]int{"tracked": 1, "depth": 2, "complen": 1}, Thorough: map[string]int{"tracked": 2, "depth": 2, "complen": 1}, Share: 0.33},
-			{Pkg: "cmd", Func: "VP_C04_Rm", Quick: map[string]int{"tracked": 2, "depth": 2, "complen": 2, "deepcomplen": 1}, Thorough: map[string]int{"tracked": 2, "depth": 2, "complen": 2}, Share: 0.33},
-			{Pkg: "cmd", Func: "VP_C04_ReAdd", Quick: map[string]int{"files": 2, "depth": 2, "complen": 1}, Thorough: map[string]int{"files": 2, "depth": 2, "complen": 2}, Share: 0.33},
+			{Pkg: "cmd", Func: "VP_C04_AddMulti", Quick: map[string]int{"args": 3}, Thorough: map[string]int{"args": 4}, Share: 1.00},
+			{Pkg: "cmd", Func: "VP_C04_Add", Quick: map[string]int{"tracked": 2, "depth": 2, "complen": 1}, Thorough: map[string]int{"tracked": 2, "depth": 2, "complen": 1}, Share: 1.00},
+			{Pkg: "cmd", Func: "VP_C04_Rm", Quick: map[string]int{"tracked": 2, "depth": 2, "complen": 2, "deepcomplen": 1}, Thorough: map[string]int{"tracked": 2, "depth": 2, "complen": 2}, Share: 1.00},
+			{Pkg: "cmd", Func: "VP_C04_ReAdd", Quick: map[string]int{"files": 2, "depth": 2, "complen": 1}, Thorough: map[string]int{"files": 2, "depth": 2, "complen": 2}, Share: 1.00},
 		},
-		QuickBudget: 8 * time.Minute, ThoroughBudget: 60 * time.Minute, Assumptions: commonAssumptions,
+		QuickBudget: 10 * time.Minute, ThoroughBudget: 45 * time.Minute, Assumptions: commonAssumptions,
 	},
 	"C05": {
 		Harnesses: []HarnessDef{
-			{Pkg: "cmd", Func: "VP_C05_TreeRoundTrip", Quick: map[string]int{"entries": 2, "depth": 2, "complen": 2, "symhash": 1}, Thorough: map[string]int{"entries": 3, "depth": 2, "complen": 2, "symhash": 0}, Share: 0.50},
-			{Pkg: "cmd", Func: "VP_C05_Cli", Quick: map[string]int{"files": 2, "depth": 2, "complen": 1}, Thorough: map[string]int{"files": 2, "depth": 2, "complen": 2}, Share: 0.50},
+			{Pkg: "cmd", Func: "VP_C05_TreeRoundTrip", Quick: map[string]int{"entries": 2, "depth": 2, "complen": 2, "symhash": 1}, Thorough: map[string]int{"entries": 3, "depth": 2, "complen": 2, "symhash": 0}, Share: 1.00},
+			{Pkg: "cmd", Func: "VP_C05_Cli", Quick: map[string]int{"files": 2, "depth": 2, "complen": 1}, Thorough: map[string]int{"files": 2, "depth": 2, "complen": 2}, Share: 1.00},
 		},
-		QuickBudget: 8 * time.Minute, ThoroughBudget: 60 * time.Minute, Assumptions: commonAssumptions,
+		QuickBudget: 10 * time.Minute, ThoroughBudget: 45 * time.Minute, Assumptions: commonAssumptions,
 	},
 	"C06": {
 		Harnesses: []HarnessDef{
-			{Pkg: "internal/store", Func: "VP_C06_GetEntry", Quick: map[string]int{"entries": 3, "depth": 2, "complen": 2}, Thorough: map[string]int{"entries": 4, "depth": 2, "complen": 2}, Share: 0.17},
-			{Pkg: "internal/store", Func: "VP_C06_IsDir", Quick: map[string]int{"entries": 3, "depth": 2, "complen": 2}, Thorough: map[string]int{"entries": 4, "depth": 2, "complen": 2}, Share: 0.17},
-			{Pkg: "internal/store", Func: "VP_C06_ByDir", Quick: map[string]int{"entries": 3, "depth": 2, "complen": 2}, Thorough: map[string]int{"entries": 4, "depth": 2, "complen": 2}, Share: 0.17},
-			{Pkg: "internal/store", Func: "VP_C06_WriteRead", Quick: map[string]int{"entries": 2, "depth": 2, "complen": 2}, Thorough: map[string]int{"entries": 3, "depth": 2, "complen": 2}, Share: 0.17},
-			{Pkg: "internal/store", Func: "VP_C06_Update", Quick: map[string]int{"entries": 2, "depth": 2, "complen": 2}, Thorough: map[string]int{"entries": 3, "depth": 2, "complen": 2}, Share: 0.17},
-			{Pkg: "internal/store", Func: "VP_C06_Delete", Quick: map[string]int{"entries": 2, "depth": 2, "complen": 2}, Thorough: map[string]int{"entries": 3, "depth": 2, "complen": 2}, Share: 0.17},
+			{Pkg: "internal/store", Func: "VP_C06_GetEntry", Quick: map[string]int{"entries": 3, "depth": 2, "complen": 2}, Thorough: map[string]int{"entries": 4, "depth": 2, "complen": 2}, Share: 1.00},
+			{Pkg: "internal/store", Func: "VP_C06_IsDir", Quick: map[string]int{"entries": 3, "depth": 2, "complen": 2}, Thorough: map[string]int{"entries": 4, "depth": 2, "complen": 2}, Share: 1.00},
+			{Pkg: "internal/store", Func: "VP_C06_ByDir", Quick: map[string]int{"entries": 3, "depth": 2, "complen": 2}, Thorough: map[string]int{"entries": 4, "depth": 2, "complen": 2}, Share: 1.00},
+			{Pkg: "internal/store", Func: "VP_C06_WriteRead", Quick: map[string]int{"entries": 2, "depth": 2, "complen": 2}, Thorough: map[string]int{"entries": 3, "depth": 2, "complen": 2}, Share: 1.00},
+			{Pkg: "internal/store", Func: "VP_C06_Update", Quick: map[string]int{"entries": 2, "depth": 2, "complen": 2}, Thorough: map[string]int{"entries": 3, "depth": 2, "complen": 2}, Share: 1.00},
+			{Pkg: "internal/store", Func: "VP_C06_Delete", Quick: map[string]int{"entries": 2, "depth": 2, "complen": 2}, Thorough: map[string]int{"entries": 3, "depth": 2, "complen": 2}, Share: 1.00},
 		},
-		QuickBudget: 8 * time.Minute, ThoroughBudget: 60 * time.Minute, Assumptions: commonAssumptions,
+		QuickBudget: 10 * time.Minute, ThoroughBudget: 45 * time.Minute, Assumptions: commonAssumptions,
 	},
 	"C07": {
 		Harnesses: []HarnessDef{
-			{Pkg: "cmd", Func: "VP_C07_Diff", Quick: map[string]int{"pool": 2, "depth": 2, "complen": 2, "symhash": 0}, Thorough: map[string]int{"pool": 3, "depth": 2, "complen": 2, "symhash": 0}, Share: 0.50},
-			{Pkg: "cmd", Func: "VP_C07_StatusStaged", Quick: map[string]int{"tracked": 1, "depth": 2, "complen": 2}, Thorough: map[string]int{"tracked": 2, "depth": 2, "complen": 2}, Share: 0.50},
+			{Pkg: "cmd", Func: "VP_C07_Diff", Quick: map[string]int{"pool": 2, "depth": 2, "complen": 2, "symhash": 0}, Thorough: map[string]int{"pool": 3, "depth": 2, "complen": 2, "symhash": 0}, Share: 1.00},
+			{Pkg: "cmd", Func: "VP_C07_StatusStaged", Quick: map[string]int{"tracked": 1, "depth": 2, "complen": 2}, Thorough: map[string]int{"tracked": 2, "depth": 2, "complen": 2}, Share: 1.00},
 		},
-		QuickBudget: 8 * time.Minute, ThoroughBudget: 60 * time.Minute, Assumptions: commonAssumptions,
+		QuickBudget: 10 * time.Minute, ThoroughBudget: 45 * time.Minute, Assumptions: commonAssumptions,
 	},
 	"C08": {
 		Harnesses: []HarnessDef{
 			{Pkg: "cmd", Func: "VP_C08_Reset", Quick: map[string]int{"complen": 1, "junk": 2}, Thorough: map[string]int{"complen": 1, "junk": 3}, Share: 1.00},
 		},
-		QuickBudget: 8 * time.Minute, ThoroughBudget: 60 * time.Minute, Assumptions: commonAssumptions,
+		QuickBudget: 10 * time.Minute, ThoroughBudget: 45 * time.Minute, Assumptions: commonAssumptions,
 	},
 	"C09": {
 		Harnesses: []HarnessDef{
-			{Pkg: "cmd", Func: "VP_C09_Restore", Quick: map[string]int{"tracked": 2, "depth": 2, "complen": 2, "deepcomplen": 1}, Thorough: map[string]int{"tracked": 2, "depth": 2, "complen": 2}, Share: 0.50},
-			{Pkg: "cmd", Func: "VP_C09_RestoreStaged", Quick: map[string]int{"files": 1, "depth": 2, "complen": 1}, Thorough: map[string]int{"files": 2, "depth": 2, "complen": 1}, Share: 0.50},
+			{Pkg: "cmd", Func: "VP_C09_Restore", Quick: map[string]int{"tracked": 2, "depth": 2, "complen": 2, "deepcomplen": 1}, Thorough: map[string]int{"tracked": 2, "depth": 2, "complen": 2}, Share: 1.00},
+			{Pkg: "cmd", Func: "VP_C09_RestoreStaged", Quick: map[string]int{"files": 1, "depth": 2, "complen": 1}, Thorough: map[string]int{"files": 2, "depth": 2, "complen": 1}, Share: 1.00},
 		},
-		QuickBudget: 8 * time.Minute, ThoroughBudget: 60 * time.Minute, Assumptions: commonAssumptions,
+		QuickBudget: 10 * time.Minute, ThoroughBudget: 45 * time.Minute, Assumptions: commonAssumptions,
 	},
 	"C10": {
 		Harnesses: []HarnessDef{
-			{Pkg: "internal/store", Func: "VP_C10_Pos", Quick: map[string]int{"branches": 3, "namelen": 2}, Thorough: map[string]int{"branches": 4, "namelen": 3}, Share: 0.14},
-			{Pkg: "internal/store", Func: "VP_C10_Add", Quick: map[string]int{"branches": 3, "namelen": 2}, Thorough: map[string]int{"branches": 3, "namelen": 3}, Share: 0.14},
-			{Pkg: "internal/store", Func: "VP_C10_Rename", Quick: map[string]int{"branches": 3, "namelen": 2}, Thorough: map[string]int{"branches": 3, "namelen": 3}, Share: 0.14},
-			{Pkg: "internal/store", Func: "VP_C10_Delete", Quick: map[string]int{"branches": 3, "namelen": 2}, Thorough: map[string]int{"branches": 3, "namelen": 3}, Share: 0.14},
-			{Pkg: "internal/store", Func: "VP_C10_UpdateHash", Quick: map[string]int{"branches": 3, "namelen": 2}, Thorough: map[string]int{"branches": 3, "namelen": 3}, Share: 0.14},
-			{Pkg: "internal/store", Func: "VP_C10_Reload", Quick: map[string]int{"branches": 3, "namelen": 2}, Thorough: map[string]int{"branches": 3, "namelen": 3}, Share: 0.14},
-			{Pkg: "cmd", Func: "VP_C10_Cli", Quick: map[string]int{"namelen": 1}, Thorough: map[string]int{"namelen": 2}, Share: 0.14},
+			{Pkg: "internal/store", Func: "VP_C10_Pos", Quick: map[string]int{"branches": 3, "namelen": 2}, Thorough: map[string]int{"branches": 4, "namelen": 3}, Share: 1.00},
+			{Pkg: "internal/store", Func: "VP_C10_Add", Quick: map[string]int{"branches": 3, "namelen": 2}, Thorough: map[string]int{"branches": 3, "namelen": 3}, Share: 1.00},
+			{Pkg: "internal/store", Func: "VP_C10_Rename", Quick: map[string]int{"branches": 3, "namelen": 2}, Thorough: map[string]int{"branches": 3, "namelen": 3}, Share: 1.00},
+			{Pkg: "internal/store", Func: "VP_C10_Delete", Quick: map[string]int{"branches": 3, "namelen": 2}, Thorough: map[string]int{"branches": 3, "namelen": 3}, Share: 1.00},
+			{Pkg: "internal/store", Func: "VP_C10_UpdateHash", Quick: map[string]int{"branches": 3, "namelen": 2}, Thorough: map[string]int{"branches": 3, "namelen": 3}, Share: 1.00},
+			{Pkg: "internal/store", Func: "VP_C10_Reload", Quick: map[string]int{"branches": 3, "namelen": 2}, Thorough: map[string]int{"branches": 3, "namelen": 3}, Share: 1.00},
+			{Pkg: "cmd", Func: "VP_C10_Cli", Quick: map[string]int{"namelen": 1}, Thorough: map[string]int{"namelen": 2}, Share: 1.00},
 		},
-		QuickBudget: 8 * time.Minute, ThoroughBudget: 60 * time.Minute, Assumptions: commonAssumptions,
+		QuickBudget: 10 * time.Minute, ThoroughBudget: 45 * time.Minute, Assumptions: commonAssumptions,
 	},
 	"C11": {
 		Harnesses: []HarnessDef{
-			{Pkg: "internal/store", Func: "VP_C11_RoundTrip", Quick: map[string]int{"records": 1, "msglen": 3, "namelen": 2}, Thorough: map[string]int{"records": 2, "msglen": 3, "namelen": 3}, Share: 0.50},
-			{Pkg: "cmd", Func: "VP_C11_Cli", Quick: map[string]int{"msglen": 2}, Thorough: map[string]int{"msglen": 3}, Share: 0.50},
+			{Pkg: "internal/store", Func: "VP_C11_RoundTrip", Quick: map[string]int{"records": 1, "msglen": 3, "namelen": 2}, Thorough: map[string]int{"records": 2, "msglen": 3, "namelen": 3}, Share: 1.00},
+			{Pkg: "cmd", Func: "VP_C11_Cli", Quick: map[string]int{"msglen": 2}, Thorough: map[string]int{"msglen": 3}, Share: 1.00},
 		},
-		QuickBudget: 8 * time.Minute, ThoroughBudget: 60 * time.Minute, Assumptions: commonAssumptions,
+		QuickBudget: 10 * time.Minute, ThoroughBudget: 45 * time.Minute, Assumptions: commonAssumptions,
 	},
 	"C12": {
 		Harnesses: []HarnessDef{
-			{Pkg: "internal/object", Func: "VP_C12_Sign", Quick: map[string]int{"namelen": 2, "unixdigits": 10}, Thorough: map[string]int{"namelen": 3, "unixdigits": 10}, Share: 0.50},
-			{Pkg: "cmd", Func: "VP_C12_Cli", Quick: map[string]int{"msglen": 1}, Thorough: map[string]int{"msglen": 3}, Share: 0.50},
+			{Pkg: "internal/object", Func: "VP_C12_Sign", Quick: map[string]int{"namelen": 2, "unixdigits": 10}, Thorough: map[string]int{"namelen": 3, "unixdigits": 10}, Share: 1.00},
+			{Pkg: "cmd", Func: "VP_C12_Cli", Quick: map[string]int{"msglen": 1}, Thorough: map[string]int{"msglen": 3}, Share: 1.00},
 		},
-		QuickBudget: 8 * time.Minute, ThoroughBudget: 60 * time.Minute, Assumptions: commonAssumptions,
+		QuickBudget: 10 * time.Minute, ThoroughBudget: 45 * time.Minute, Assumptions: commonAssumptions,
 	},
 	"C13": {
 		Harnesses: []HarnessDef{
-			{Pkg: "cmd", Func: "VP_C13_Status", Quick: map[string]int{"tracked": 1, "depth": 2, "complen": 2}, Thorough: map[string]int{"tracked": 2, "depth": 2, "complen": 2}, Share: 1.00},
+			{Pkg: "cmd", Func: "VP_C13_Status", Quick: map[string]int{"tracked": 2, "depth": 2, "complen": 2, "deepcomplen": 1, "contentfixed": 1, "asym": 1, "udepth": 1}, Thorough: map[string]int{"tracked": 2, "depth": 2, "complen": 2}, Share: 1.00},
 		},
-		QuickBudget: 8 * time.Minute, ThoroughBudget: 60 * time.Minute, Assumptions: commonAssumptions,
+		QuickBudget: 10 * time.Minute, ThoroughBudget: 45 * time.Minute, Assumptions: commonAssumptions,
 	},
 	"C14": {
 		Harnesses: []HarnessDef{
-			{Pkg: "cmd", Func: "VP_C14_Log", Quick: map[string]int{"commits": 3}, Thorough: map[string]int{"commits": 6}, Share: 1.00},
+			{Pkg: "cmd", Func: "VP_C14_Log", Quick: map[string]int{"commits": 4}, Thorough: map[string]int{"commits": 6}, Share: 1.00},
 		},
-		QuickBudget: 8 * time.Minute, ThoroughBudget: 60 * time.Minute, Assumptions: commonAssumptions,
+		QuickBudget: 10 * time.Minute, ThoroughBudget: 45 * time.Minute, Assumptions: commonAssumptions,
 	},
 	"C15": {
 		Harnesses: []HarnessDef{
 			{Pkg: "cmd", Func: "VP_C15_Crash", Quick: map[string]int{"scenarios": 18, "maxmut": 40}, Thorough: map[string]int{"scenarios": 18, "maxmut": 40}, Share: 1.00},
 		},
-		QuickBudget: 8 * time.Minute, ThoroughBudget: 60 * time.Minute, Assumptions: commonAssumptions,
+		QuickBudget: 10 * time.Minute, ThoroughBudget: 45 * time.Minute, Assumptions: commonAssumptions,
 	},
 	"C16": {
 		Harnesses: []HarnessDef{
 			{Pkg: "cmd", Func: "VP_C16_Fault", Quick: map[string]int{"scenarios": 18, "maxops": 60}, Thorough: map[string]int{"scenarios": 18, "maxops": 60}, Share: 1.00},
 		},
-		QuickBudget: 8 * time.Minute, ThoroughBudget: 60 * time.Minute, Assumptions: commonAssumptions,
+		QuickBudget: 10 * time.Minute, ThoroughBudget: 45 * time.Minute, Assumptions: commonAssumptions,
 	},
 	"C17": {
 		Harnesses: []HarnessDef{
-			{Pkg: "cmd", Func: "VP_C17_Add", Quick: map[string]int{"complen": 1}, Thorough: map[string]int{"complen": 2}, Share: 0.50},
-			{Pkg: "cmd", Func: "VP_C17_Semantics", Quick: map[string]int{}, Thorough: map[string]int{}, Share: 0.50},
+			{Pkg: "cmd", Func: "VP_C17_Add", Quick: map[string]int{"complen": 1}, Thorough: map[string]int{"complen": 2}, Share: 1.00},
+			{Pkg: "cmd", Func: "VP_C17_Semantics", Quick: map[string]int{}, Thorough: map[string]int{}, Share: 1.00},
 		},
-		QuickBudget: 8 * time.Minute, ThoroughBudget: 60 * time.Minute, Assumptions: commonAssumptions,
+		QuickBudget: 10 * time.Minute, ThoroughBudget: 45 * time.Minute, Assumptions: commonAssumptions,
 	},
 	"C18": {
 		Harnesses: []HarnessDef{
 			{Pkg: "cmd", Func: "VP_C18_AnyCmd", Quick: map[string]int{"statemask": 255, "maxargs": 2, "arglen": 1}, Thorough: map[string]int{"statemask": 255, "maxargs": 2, "arglen": 2}, Share: 1.00},
 		},
-		QuickBudget: 8 * time.Minute, ThoroughBudget: 60 * time.Minute, Assumptions: commonAssumptions,
+		QuickBudget: 10 * time.Minute, ThoroughBudget: 45 * time.Minute, Assumptions: commonAssumptions,
 	},
 	"C19": {
 		Harnesses: []HarnessDef{
-			{Pkg: "internal/object", Func: "VP_C19_ReadHeader", Quick: map[string]int{"n": 6}, Thorough: map[string]int{"n": 9}, Share: 0.08},
-			{Pkg: "internal/object", Func: "VP_C19_GetObject", Quick: map[string]int{"n": 5}, Thorough: map[string]int{"n": 7}, Share: 0.08},
-			{Pkg: "internal/object", Func: "VP_C19_ValidUnderName", Quick: map[string]int{"n": 5, "shortReads": 1}, Thorough: map[string]int{"n": 8, "shortReads": 1}, Share: 0.08},
-			{Pkg: "internal/object", Func: "VP_C19_RawObject", Quick: map[string]int{"rawZlibMax": 6}, Thorough: map[string]int{"rawZlibMax": 8}, Share: 0.08},
-			{Pkg: "internal/object", Func: "VP_C19_WalkTree", Quick: map[string]int{"n": 5}, Thorough: map[string]int{"n": 7}, Share: 0.08},
-			{Pkg: "internal/object", Func: "VP_C19_NewCommit", Quick: map[string]int{"n": 5}, Thorough: map[string]int{"n": 7}, Share: 0.08},
-			{Pkg: "internal/object", Func: "VP_C19_ReadSign", Quick: map[string]int{"n": 7}, Thorough: map[string]int{"n": 9}, Share: 0.08},
-			{Pkg: "internal/store", Func: "VP_C19_IndexRead", Quick: map[string]int{"n": 8}, Thorough: map[string]int{"n": 12}, Share: 0.08},
-			{Pkg: "internal/store", Func: "VP_C19_ConfigLoad", Quick: map[string]int{"n": 5}, Thorough: map[string]int{"n": 7}, Share: 0.08},
-			{Pkg: "internal/store", Func: "VP_C19_NewHead", Quick: map[string]int{"n": 5}, Thorough: map[string]int{"n": 7}, Share: 0.08},
-			{Pkg: "internal/store", Func: "VP_C19_RefsLoad", Quick: map[string]int{"n": 5}, Thorough: map[string]int{"n": 7}, Share: 0.08},
-			{Pkg: "internal/store", Func: "VP_C19_ReflogLoad", Quick: map[string]int{"n": 5}, Thorough: map[string]int{"n": 7}, Share: 0.08},
+			{Pkg: "internal/object", Func: "VP_C19_ReadHeader", Quick: map[string]int{"n": 6}, Thorough: map[string]int{"n": 9}, Share: 1.00},
+			{Pkg: "internal/object", Func: "VP_C19_GetObject", Quick: map[string]int{"n": 5}, Thorough: map[string]int{"n": 7}, Share: 1.00},
+			{Pkg: "internal/object", Func: "VP_C19_ValidUnderName", Quick: map[string]int{"n": 5, "shortReads": 1}, Thorough: map[string]int{"n": 8, "shortReads": 1}, Share: 1.00},
+			{Pkg: "internal/object", Func: "VP_C19_RawObject", Quick: map[string]int{"rawZlibMax": 6}, Thorough: map[string]int{"rawZlibMax": 8}, Share: 1.00},
+			{Pkg: "internal/object", Func: "VP_C19_WalkTree", Quick: map[string]int{"n": 5}, Thorough: map[string]int{"n": 7}, Share: 1.00},
+			{Pkg: "internal/object", Func: "VP_C19_NewCommit", Quick: map[string]int{"n": 5}, Thorough: map[string]int{"n": 7}, Share: 1.00},
+			{Pkg: "internal/object", Func: "VP_C19_ReadSign", Quick: map[string]int{"n": 7}, Thorough: map[string]int{"n": 9}, Share: 1.00},
+			{Pkg: "internal/store", Func: "VP_C19_IndexRead", Quick: map[string]int{"n": 8}, Thorough: map[string]int{"n": 12}, Share: 1.00},
+			{Pkg: "internal/store", Func: "VP_C19_ConfigLoad", Quick: map[string]int{"n": 5}, Thorough: map[string]int{"n": 7}, Share: 1.00},
+			{Pkg: "internal/store", Func: "VP_C19_NewHead", Quick: map[string]int{"n": 5}, Thorough: map[string]int{"n": 7}, Share: 1.00},
+			{Pkg: "internal/store", Func: "VP_C19_RefsLoad", Quick: map[string]int{"n": 5}, Thorough: map[string]int{"n": 7}, Share: 1.00},
+			{Pkg: "internal/store", Func: "VP_C19_ReflogLoad", Quick: map[string]int{"n": 5}, Thorough: map[string]int{"n": 7}, Share: 1.00},
 		},
-		QuickBudget: 8 * time.Minute, ThoroughBudget: 60 * time.Minute, Assumptions: commonAssumptions,
+		QuickBudget: 10 * time.Minute, ThoroughBudget: 45 * time.Minute, Assumptions: commonAssumptions,
 	},
 	"C20": {
 		Harnesses: []HarnessDef{
-			{Pkg: "internal/store", Func: "VP_C20_WriteLoad", Quick: map[string]int{"pairs": 2, "wordlen": 2, "vallen": 4}, Thorough: map[string]int{"pairs": 3, "wordlen": 2, "vallen": 4}, Share: 0.33},
-			{Pkg: "internal/store", Func: "VP_C20_Precedence", Quick: map[string]int{}, Thorough: map[string]int{}, Share: 0.33},
-			{Pkg: "cmd", Func: "VP_C20_Cli", Quick: map[string]int{"writes": 2}, Thorough: map[string]int{"writes": 3}, Share: 0.33},
+			{Pkg: "internal/store", Func: "VP_C20_WriteLoad", Quick: map[string]int{"pairs": 2, "wordlen": 2, "vallen": 4}, Thorough: map[string]int{"pairs": 3, "wordlen": 2, "vallen": 4}, Share: 1.00},
+			{Pkg: "internal/store", Func: "VP_C20_Precedence", Quick: map[string]int{}, Thorough: map[string]int{}, Share: 1.00},
+			{Pkg: "cmd", Func: "VP_C20_Cli", Quick: map[string]int{"writes": 2}, Thorough: map[string]int{"writes": 3}, Share: 1.00},
 		},
-		QuickBudget: 8 * time.Minute, ThoroughBudget: 60 * time.Minute, Assumptions: commonAssumptions,
+		QuickBudget: 10 * time.Minute, ThoroughBudget: 45 * time.Minute, Assumptions: commonAssumptions,
 	},
 }
